@@ -801,6 +801,11 @@ def _allocation_cases(fn):
     if len(cases) != 3:
         return False
     slot = r"self\.allocations\[\(?\w+asusize\)?\]"
+    # the two tests are disjoint (UNASSIGNED is u32::MAX, never < N), so their order is free
+    if _re.fullmatch(r"(%s==UNASSIGNED|UNASSIGNED==%s)" % (slot, slot), cases[0][0]) and cases[2][0] == "else":
+        consts = [c_ for c_ in A.find_items(ALLOC, "Const") if c_.get("name") == "UNASSIGNED"]
+        if consts and str(A.ftxt(consts[0].get("e") or {})) == "u32::MAX":
+            cases = [cases[1], cases[0], cases[2]]
     c0, c1, c2 = cases
     t0, t1, t2 = (str(A.ftxt(x[1])) for x in cases)
     return bool(
